@@ -74,7 +74,9 @@ def oracle(ctx: Ctx, case: dict, impl: dict, regime: str | None = None) -> None:
         ctx.violation("incl-equal", case, {"adv": adv, "enf": enf})
     if not (a["el"] <= e["el"] and e["eu"] <= a["eu"]):
         ctx.violation("excl-dominated", case, {"adv": adv, "enf": enf})
-    mc, ms = (Fraction(x) for x in impl["minp"])
+    # the groups' min powers are the distribution algorithm's own; it refuses to form them when the participating sets
+    # report no capacity at all (capacity > 0 is C01's domain, which this property's quantifier refers to)
+    mc, ms = (Fraction(x) for x in impl["minp"]) if impl["minp"] is not None else (None, None)
     for p_s, contains, row in zip(case["powers"], impl["contains"], impl["req"]):
         p = Fraction(p_s)
         if p == 0:
@@ -89,6 +91,8 @@ def oracle(ctx: Ctx, case: dict, impl: dict, regime: str | None = None) -> None:
                 ctx.violation("accept", case, {"power": p_s, "adjust_power": flag == "adjust", "answer": ans,
                                                "adv": adv, "enf": enf})
         # only this clause goes through the id-keyed `excl_bounds` dict, which overlapping battery sets corrupt
+        if mc is None:
+            continue
         if p > 0 and p < mc:
             ctx.violation("min-power", case, {"power": p_s, "sum_min_power_consume": impl["minp"][0], "adv": adv},
                           regime=regime)
@@ -107,6 +111,9 @@ def tags_of(groups: list[dict], impl: dict, domain: bool) -> tuple[list[str], bo
         tags.append("non-working")
     if not g.is_complete(groups):
         tags.append("incomplete")
+    zero = [all(b.get("cap") == "0" for b in gr["bats"]) for gr in groups]
+    if any(b.get("cap") == "0" for gr in groups for b in gr["bats"]):
+        tags.append("capacity-0:every-set" if all(zero) else "capacity-0:a-whole-set" if any(zero) else "capacity-0:one-battery")
     if impl["enf"] == "unmodelled":
         tags.append("manager-nan-excl(calculator only)")
     if impl["adv"] is None:
@@ -166,6 +173,14 @@ def check_groups(ctx: Ctx, groups: list[dict], rng: random.Random, powers: list[
     if domain:
         oracle(ctx, case, impl)
     tags, nontrivial = tags_of(groups, impl, domain)
+    if impl.pop("total_capacity_zero", False):
+        # every participating battery reports capacity 0: the bounds clauses are judged as always; the algorithm answers
+        # a request with Error ("All batteries have capacity 0.") — not OutOfBounds — and defines no min powers, which
+        # the model (capacity > 0) has no counterpart for: oracle only
+        ctx.case(case, tags=tags + ["total-capacity-0(oracle only)"], nontrivial=False)
+        if domain and "error" in impl.get("dist", []):
+            ctx.extra["observation_total_capacity_0_answered_Error"] = ctx.extra.get("observation_total_capacity_0_answered_Error", 0) + 1
+        return None, None
     ctx.case(case, tags=tags, nontrivial=nontrivial)
     return case, impl
 
@@ -270,6 +285,66 @@ def gen_stream_steps(rng: random.Random) -> list[list[dict]]:
         if not g.is_consistent(nxt):
             nxt = copy.deepcopy(steps[-1])
         steps.append(nxt)
+    if rng.random() < 0.5:
+        steps = decorate_history(rng, steps)
+    return steps
+
+
+def decorate_history(rng: random.Random, steps: list[list[dict]]) -> list[list[dict]]:
+    """Message timestamps and arrival patterns on top of a history of values: one or two components send ONE sample
+    stamped older than / equal to their previous one, or keep sending decreasing timestamps (replay after a
+    reconnect), are delayed for 1-3 samples (silent for less than the 2 s data age), or stop for longer than that and
+    resume; after the anomaly their bounds shrink, so a pool that lost track of the component advertises stale bounds.
+    The data of a muted component is the data of its last message (the latest both sides hold)."""
+    import copy
+
+    steps = copy.deepcopy(steps)
+    while len(steps) < 5:
+        steps.append(copy.deepcopy(steps[-1]))
+    n = len(steps)
+    comps = lambda gs: [c for gr in gs for c in gr["bats"] + gr["invs"]]  # noqa: E731
+    ncomp = len(comps(steps[0]))
+    mode = rng.choice(["older-once", "older-once", "older-once", "equal", "older-run", "delayed", "delayed",
+                       "stop-resume", "older-then-stop"])
+    targets = rng.sample(range(ncomp), k=min(ncomp, rng.choice([1, 1, 2])))
+    k0 = rng.randint(1, n - 3)                     # the sample of the anomaly; at least two samples follow
+    fresh = lambda c, k: 100 * (k + 1) + c["id"] % 50  # noqa: E731
+    for t in targets:
+        if mode in ("older-once", "older-then-stop"):
+            c = comps(steps[k0])[t]
+            c["ts"] = fresh(c, k0 - 1) - rng.choice([1, 1, 30, 99, 5000])
+        elif mode == "equal":
+            c = comps(steps[k0])[t]
+            c["ts"] = fresh(c, k0 - 1)
+        elif mode == "older-run":
+            for k in range(k0, n):
+                c = comps(steps[k])[t]
+                c["ts"] = fresh(c, k0 - 1) - (k - k0 + 1) * rng.choice([1, 7])
+        if mode in ("delayed", "stop-resume", "older-then-stop"):
+            m = rng.randint(1, 3) if mode == "delayed" else rng.randint(1, 2)
+            first = k0 + (1 if mode == "older-then-stop" else 0)
+            for k in range(first, min(n - 1, first + m)):
+                c = comps(steps[k])[t]
+                c["mute"] = True
+                for key in ("il", "el", "eu", "iu"):   # nothing new arrives: the latest data is the last message's
+                    c[key] = comps(steps[k - 1])[t][key]
+            if mode != "delayed" and first < n - 1:
+                steps[first][0]["wait"] = rng.choice(["5/2", "3", "21/10"])   # longer than the 2 s data age
+        # afterwards the component reports tighter bounds (inclusion halved, exclusion kept inside)
+        k1 = min(n - 1, k0 + rng.choice([1, 1, 2]))
+        for k in range(k1, n):
+            c = comps(steps[k])[t]
+            if c.get("mute"):
+                continue
+            il, el, eu, iu = (Fraction(c[x]) for x in ("il", "el", "eu", "iu"))
+            il, iu = il / 2, iu / 2
+            c.update({"il": g.out_rat(il), "el": g.out_rat(max(el, il)), "eu": g.out_rat(min(eu, iu)), "iu": g.out_rat(iu)})
+    # a muted component keeps the data of its last message in every later muted sample
+    for k in range(1, n):
+        for t, c in enumerate(comps(steps[k])):
+            if c.get("mute"):
+                for key in ("il", "el", "eu", "iu"):
+                    c[key] = comps(steps[k - 1])[t][key]
     return steps
 
 
@@ -281,6 +356,15 @@ def check_stream(ctx: Ctx, steps: list[list[dict]], rng: random.Random, cases: l
     streamed = g.run_c17_stream(steps)
     for k, (groups, st) in enumerate(zip(steps, streamed)):
         if only_last and k != len(steps) - 1:
+            continue
+        silence = g.stream_silence(steps, k)
+        if silence >= Fraction(19, 10):
+            # some component has been silent for the data age (2 s): the pool's fetcher reports it as "stopped sending
+            # data" and its battery set leaves the advertised bounds, while a manager would still hold its last message
+            # — not "the same complete component data" (C16 decides what happens to such a battery); judged again as
+            # soon as the component has resumed
+            ctx.tags["stream:component-silent>=data-age(outside the domain)"] = ctx.tags.get(
+                "stream:component-silent>=data-age(outside the domain)", 0) + 1
             continue
         bats, invs = g.flat(groups)
 
@@ -315,6 +399,27 @@ def check_stream(ctx: Ctx, steps: list[list[dict]], rng: random.Random, cases: l
                 tags.append("stream:jump")
         if st != sync_adv:
             tags.append("stream:stale")
+        hist = [c for gs in steps[:k + 1] for part in g.flat(gs) for c in part]
+        if any("ts" in c for c in hist):
+            prev_ts: dict[int, int] = {}
+            kinds = set()
+            for j, gs in enumerate(steps[:k + 1]):
+                for c in [x for part in g.flat(gs) for x in part]:
+                    if c.get("mute") or not c["has"]:
+                        continue
+                    ts = g.stream_ts(c, j)
+                    if c["id"] in prev_ts:
+                        kinds.add("older" if ts < prev_ts[c["id"]] else "equal" if ts == prev_ts[c["id"]] else "newer")
+                    prev_ts[c["id"]] = ts
+            tags += [f"stream:timestamp-{x}-than-previous" for x in sorted(kinds - {"newer"})]
+        if any(c.get("mute") for c in hist):
+            tags.append("stream:component-resumed-after-pause" if any(
+                gr.get("wait") for gs in steps[:k + 1] for gr in gs) else "stream:component-delayed")
+        if any(c.get("cap") == "0" for c in bats):
+            tags.append("stream:capacity-0")
+        if impl.pop("total_capacity_zero", False):
+            ctx.case(case, tags=tags + ["total-capacity-0(oracle only)"], nontrivial=False)
+            continue
         ctx.case(case, tags=tags, nontrivial=k > 0)
         cases.append(case)
         outs.append(impl)
@@ -358,14 +463,17 @@ def run(ctx: Ctx) -> None:
         consistent = r < 0.9
         groups = g.gen_c17_groups(rng, consistent, incomplete=0.12 if consistent else 0.3)
         c, o = check_groups(ctx, groups, rng)
-        cases.append(c)
-        outs.append(o)
+        if c is not None:
+            cases.append(c)
+            outs.append(o)
     # the bounds really STREAMED by `SendOnUpdate(PowerBoundsCalculator)` (asyncio tasks on the virtual clock, mocked
     # API channels) must be the ones computed through the synchronous seam above
     for i in range(ctx.budget(30, 500)):
         rng = ctx.subrng("fullstack", i)
         groups = g.gen_c17_groups(rng, True, incomplete=0.3)
         c, o = check_groups(ctx, groups, rng)
+        if c is None:
+            continue
         cases.append(c)
         outs.append(o)
         streamed = g.run_c17_fullstack_adv(groups)
